@@ -192,3 +192,145 @@ theorem rewrite_cycle_rejected (g : G) (n : WNode) (hn : n ∈ g.nodes) (hc : RP
   simp [hpre]
 
 end FgaVerif.Model.WAssign
+
+namespace FgaVerif.Model.WAssign
+open FgaVerif.Model FgaVerif.Model.WGraph
+
+/-! ### soundness: the pre-pass only reports cycles that exist
+
+    The nodes in progress form a chain `… → p₂ → p₁ → n`, so a successor found among them closes a
+    cycle.  Running out of fuel would also answer "cycle"; it cannot happen, because the chain has no
+    repetition and stays inside the nodes of the graph (hypothesis: every rewrite/computed edge ends in
+    a node of the graph, which the builder guarantees), so its length is bounded by their number. -/
+
+def labels (g : G) : List String := g.nodes.map (·.uniqueLabel)
+
+/-- every rewrite or computed edge ends in a node of the graph -/
+def RClosed (g : G) : Prop := ∀ x y, RStep g x y → y ∈ labels g
+
+/-- reflexive-transitive reachability through rewrite/computed edges -/
+def RReach (g : G) (x y : String) : Prop := x = y ∨ RPath g x y
+
+theorem RPath.snoc {g : G} {x y z : String} (h : RPath g x y) (hs : RStep g y z) : RPath g x z := by
+  induction h with
+  | one h1 => exact .cons h1 (.one hs)
+  | cons h1 _ ih => exact .cons h1 (ih hs)
+
+theorem RReach.step {g : G} {x y z : String} (h : RReach g x y) (hs : RStep g y z) : RPath g x z := by
+  rcases h with rfl | h
+  · exact .one hs
+  · exact h.snoc hs
+
+/-- what a call that reports a cycle proves -/
+def FoundSpec (g : G) (r : Bool × List String) : Prop := r.1 = true → ∃ x, RPath g x x
+
+theorem fold_found (fuel : Nat) (g : G) (inProg : List String) (n : String)
+    (hchain : ∀ p ∈ inProg, RReach g p n)
+    (hrec : ∀ m done, RStep g n m → m ∉ inProg → FoundSpec g (rvisit fuel g m inProg done)) :
+    ∀ (ms : List String) (acc : Bool × List String), (∀ m ∈ ms, RStep g n m) → FoundSpec g acc →
+      FoundSpec g (ms.foldl (rstep fuel g inProg) acc)
+  | [], acc, _, hacc => hacc
+  | m :: ms, acc, hms, hacc => by
+    simp only [List.foldl_cons]
+    apply fold_found fuel g inProg n hchain hrec ms _ (fun m' hm' => hms m' (by simp [hm']))
+    unfold rstep
+    by_cases h0 : acc.1 = true
+    · simp only [h0, if_true]; exact hacc
+    · simp only [h0, Bool.false_eq_true, if_false]
+      by_cases h1 : inProg.contains m = true
+      · simp only [h1, if_true]
+        intro _
+        have hm : m ∈ inProg := by simpa using h1
+        -- m reaches n along the chain, and n → m
+        exact ⟨m, (hchain m hm).step (hms m (by simp)) |> fun (hp : RPath g m m) => hp⟩
+      · simp only [h1, Bool.false_eq_true, if_false]
+        by_cases h2 : acc.2.contains m = true
+        · simp only [h2, if_true]; intro h; exact absurd h h0
+        · simp only [h2, Bool.false_eq_true, if_false]
+          exact hrec m acc.2 (hms m (by simp)) (by simpa using h1)
+
+theorem rvisit_found (g : G) (hcl : RClosed g) : ∀ (fuel : Nat) (n : String) (inProg done : List String),
+    n ∈ labels g → n ∉ inProg → inProg.Nodup → (∀ p ∈ inProg, p ∈ labels g) →
+    (∀ p ∈ inProg, RReach g p n) → g.nodes.length + 1 ≤ fuel + inProg.length →
+    FoundSpec g (rvisit fuel g n inProg done)
+  | 0, n, inProg, done, hn, hni, hnd, hsub, _, hfuel => by
+    -- impossible: the chain together with `n` would have more distinct elements than the graph has nodes
+    exfalso
+    have hnd' : (n :: inProg).Nodup := List.nodup_cons.2 ⟨hni, hnd⟩
+    have hsub' : (n :: inProg) ⊆ labels g := by
+      intro x hx
+      rcases List.mem_cons.1 hx with rfl | hx
+      · exact hn
+      · exact hsub x hx
+    have := List.Nodup.length_le_of_subset hnd' hsub'
+    simp only [List.length_cons, labels, List.length_map] at this
+    omega
+  | fuel+1, n, inProg, done, hn, hni, hnd, hsub, hchain, hfuel => by
+    intro hres
+    rw [rvisit_succ] at hres
+    have hnd' : (n :: inProg).Nodup := List.nodup_cons.2 ⟨hni, hnd⟩
+    have hchain' : ∀ p ∈ n :: inProg, RReach g p n := by
+      intro p hp
+      rcases List.mem_cons.1 hp with rfl | hp
+      · exact Or.inl rfl
+      · exact hchain p hp
+    have hfold := fold_found fuel g (n :: inProg) n hchain'
+      (fun m d hs hmi => rvisit_found g hcl fuel m (n :: inProg) d (hcl n m hs) hmi hnd'
+        (fun p hp => by
+          rcases List.mem_cons.1 hp with rfl | hp
+          · exact hn
+          · exact hsub p hp)
+        (fun p hp => Or.inr ((hchain' p hp).step hs))
+        (by simp only [List.length_cons]; omega))
+      (rewriteSuccs g n) (false, done) (fun m hm => hm) (fun h => by cases h)
+    apply hfold
+    by_cases hf : ((rewriteSuccs g n).foldl (rstep fuel g (n :: inProg)) (false, done)).1 = true
+    · exact hf
+    · simp [hf] at hres
+
+theorem ofold_found (g : G) (hcl : RClosed g) : ∀ (ns : List WNode) (acc : Bool × List String),
+    (∀ n ∈ ns, n ∈ g.nodes) → FoundSpec g acc → FoundSpec g (ns.foldl (ostep g) acc)
+  | [], acc, _, hacc => hacc
+  | n :: ns, acc, hns, hacc => by
+    simp only [List.foldl_cons]
+    apply ofold_found g hcl ns _ (fun n' hn' => hns n' (by simp [hn']))
+    unfold ostep
+    by_cases h0 : acc.1 = true
+    · simp only [h0, if_true]; exact hacc
+    · simp only [h0, Bool.false_eq_true, if_false]
+      by_cases h2 : acc.2.contains n.uniqueLabel = true
+      · simp only [h2, if_true]; exact hacc
+      · simp only [h2, Bool.false_eq_true, if_false]
+        exact rvisit_found g hcl _ n.uniqueLabel [] acc.2
+          (List.mem_map.2 ⟨n, hns n (by simp), rfl⟩) (by simp) List.nodup_nil (by simp) (by simp) (by simp)
+
+/-- **soundness of the pre-pass** on a graph whose rewrite/computed edges end in nodes of the graph -/
+theorem cycle_of_prepass (g : G) (hcl : RClosed g) (h : hasRewriteOnlyCycle g = true) : ∃ x, RPath g x x := by
+  rw [hasRewriteOnlyCycle_eq] at h
+  exact ofold_found g hcl g.nodes (false, []) (fun _ h => h) (fun h => by cases h) h
+
+end FgaVerif.Model.WAssign
+
+namespace FgaVerif.Model.WAssign
+open FgaVerif.Model FgaVerif.Model.WGraph
+
+/-- executable form of `RClosed`, evaluated by the driver on every built graph (`wassign`) -/
+def rclosedB (g : G) : Bool :=
+  g.edges.all (fun p => p.2.all (fun e => !(e.etype == .rewrite || e.etype == .computed) || (labels g).contains e.dst))
+
+theorem rclosedB_sound (g : G) (h : rclosedB g = true) : RClosed g := by
+  intro x y hs
+  unfold RStep rewriteSuccs at hs
+  obtain ⟨e, he, rfl⟩ := List.mem_map.1 hs
+  obtain ⟨hmem, hty⟩ := List.mem_filter.1 he
+  unfold edgesOf at hmem
+  split at hmem
+  · rename_i k es hf
+    have hp := List.mem_of_find?_eq_some hf
+    have h1 := List.all_eq_true.1 h _ hp
+    have h2 := List.all_eq_true.1 h1 e hmem
+    simp only [hty, Bool.not_true, Bool.false_or] at h2
+    simpa using h2
+  · cases hmem
+
+end FgaVerif.Model.WAssign
